@@ -2,7 +2,7 @@
 (* WIRE engine=112 fn=dispatch_c12 *)
 From Coq Require Import List NArith Bool.
 From RPFT Require Import Base.Sexp Base.PyStr Base.ODict Base.Result Gen.Tables Cell.Cell
-  Index.Args Index.Bulk Index.BulkHistory.
+  Index.Args Index.Bulk Index.BulkHistory Index.Alias.
 Import ListNotations.
 Local Open Scope N_scope.
 
@@ -114,6 +114,60 @@ Definition enc_outcome (reg : registry wD wT) (c : @call) (o : @outcome wF N uni
   | _, _ => s_badinput
   end.
 
+(* ---- instances that change their values in place (Index/Alias.v) ---- *)
+Definition dec_mop (x : sexp) : option mop :=
+  match x with
+  | L [A 0] => Some MPop | L [A 1] => Some MPop0 | L [A 2] => Some MPopG | L [A 3] => Some MPop0G
+  | L [A 4; s] => match dec_str s with Some s' => Some (MAppend s') | None => None end
+  | L [A 5; s] => match dec_str s with Some s' => Some (MInsert0 s') | None => None end
+  | L [A 6] => Some MReverse | L [A 7] => Some MSort | L [A 8] => Some MSortRev
+  | L [A 9; ss] => match dec_list dec_str ss with Some ss' => Some (MExtend ss') | None => None end
+  | L [A 10] => Some MClear | L [A 11] => Some MRemoveFirst
+  | L [A 12; s] => match dec_str s with Some s' => Some (MSetItem0 s') | None => None end
+  | L [A 13] => Some MForPop
+  | _ => None
+  end.
+
+Definition dec_sel (x : sexp) : option sel :=
+  match x with A 0 => Some SelSelf | A 1 => Some SelFirst | A 2 => Some SelLast | _ => None end.
+
+Definition dec_item (x : sexp) : option item :=
+  match x with
+  | L [A 0; v; s; ops] =>
+    match dec_str v, dec_sel s, dec_list dec_mop ops with
+    | Some v', Some s', Some ops' => Some (IMsg v' s' ops')
+    | _, _, _ => None
+    end
+  | L [A 1; L [A 0; t]; ops] =>
+    match dec_str t, dec_list dec_mop ops with Some t', Some ops' => Some (ILoop (LLit t') ops') | _, _ => None end
+  | L [A 1; L [A 1; v]; ops] =>
+    match dec_str v, dec_list dec_mop ops with Some v', Some ops' => Some (ILoop (LVar v') ops') | _, _ => None end
+  | _ => None
+  end.
+
+Definition dec_binding (x : sexp) : option (str * str * nv) :=
+  match x with
+  | L [n; k; v] => match dec_str n, dec_str k, c12_dec_nv v with
+                   | Some n', Some k', Some v' => Some (n', k', v')
+                   | _, _, _ => None
+                   end
+  | _ => None
+  end.
+
+Definition dec_ainst (x : sexp) : option minst :=
+  match x with
+  | L [c; its] => match dec_list dec_binding c, dec_list dec_item its with
+                  | Some c', Some its' => Some (mk_minst c' its')
+                  | _, _ => None
+                  end
+  | _ => None
+  end.
+
+Definition enc_obs (o : obs) : sexp := L [enc_list enc_nv (o_printed o); enc_nv (o_shown o)].
+Definition alias_err_code (e : xerr) : N := match e with XStop => 1 | XUnsupported => 2 | XFuel => 3 end.
+Definition enc_ares (r : result xerr (list obs)) : sexp :=
+  match r with Ok os => L [A 0; enc_list enc_obs os] | Err e => s_err (alias_err_code e) end.
+
 Definition dispatch_c12 (fn : N) (args : list sexp) : sexp :=
   match fn, args with
   | 1, [ss; defs; av; c] =>
@@ -150,6 +204,13 @@ Definition dispatch_c12 (fn : N) (args : list sexp) : sexp :=
       let '(reg', outs) := run_calls (rec_compile fail') 0 reg cs in
       enc_list (fun co => enc_outcome reg' (fst co) (snd co)) (combine cs outs)
     | _, _, _ => s_badinput
+    end
+  | 6, [is] =>
+    (* the instances of one run, in one process, under the policy measured on the code *)
+    match dec_list dec_ainst is with
+    | Some is' => L [L [enc_bool (pol_ctx_private as_coded); enc_bool (pol_lit_fresh as_coded)];
+                     enc_list enc_ares (run_all as_coded ps_empty is')]
+    | None => s_badinput
     end
   | _, _ => s_badinput
   end.
